@@ -578,7 +578,8 @@ class SummaryCollector(ModelVisitor):
     def on_scenario(self, scenario):
         if scenario.status == Status.failed:
             self.failed_scenarios.append(scenario)
-        elif scenario.status == Status.error:
+        elif scenario.status.is_error():
+            # -- INCLUDES: Status.error, Status.hook_error, ...
             self.errored_scenarios.append(scenario)
 
         self.summary_counts.scenarios.increment(scenario.status)
